@@ -2,6 +2,7 @@
    setpen/chpen.  Nothing but the property theorems, each closed by [exact <lemma>]. *)
 From Coq Require Import ZArith List Bool Lia.
 From Tickit Require Import Csi VT TermPenDefs TermPenSpec TermPenProofs Gen_Palette Gen_SgrOnOff.
+From Tickit Require Import XtermDefs TermApiDefs TermApiProofs.
 Import ListNotations.
 Local Open Scope Z_scope.
 
@@ -152,3 +153,18 @@ Proof.
   - vm_compute. split; reflexivity.
 Qed.
 Print Assumptions C10_nonvacuous.
+
+(* ---- at the level of the public API of term.c: tickit_term_setpen / tickit_term_chpen on an xterm
+   terminal object (256 colours at build time) keep the invariant, change nothing but the screen's
+   rendition, and write nothing when the logical pen does not change *)
+Theorem C10_api_pen : forall (is_set : bool) l t v p,
+  PenInv 256 (cap_colon (x_caps (t_drv t))) (cap_rgb8 (x_caps (t_drv t))) l (t_pen t) v ->
+  pen_in_range p ->
+  exists t' ts, api_step t (if is_set then ASetpen p else AChpen p) = Some (t', ts, None) /\
+    t_drv t' = t_drv t /\
+    PenInv 256 (cap_colon (x_caps (t_drv t))) (cap_rgb8 (x_caps (t_drv t)))
+           (if is_set then logical_set l p else logical_ch l p) (t_pen t') (vt_run ts v) /\
+    vt_run ts v = set_sgr v (v_sgr (vt_run ts v)) /\
+    ((forall a, (if is_set then logical_set l p else logical_ch l p) a = l a) -> ts = []).
+Proof. exact api_pen_ok_step. Qed.
+Print Assumptions C10_api_pen.
